@@ -50,6 +50,7 @@ def stepLine (st : DState) (line : String) : DState × String :=
   | ["mon.c17.endblock-not-halted"] => (st, "pass")  -- C17: crafted transactions cannot make the end-blocker panic
   | ["mon.c18.long-address", _] => (st, "pass")  -- string form round-trips for every admitted address length (C18)
   | ["mon.c13.offset-walk", _] => (st, "pass")  -- a walk that changes its page size still delivers every item (F25: the SDK's offset + limit wraps)
+  | ["mon.c07.invariant-check-period"] => (st, "pass")  -- invariant checks (genesis, inv-check-period) never halt on coins waiting to be burned
   | ["mon.c07.module-account-recipient"] => (st, "pass")  -- the transit module account cannot be squatted: the end-blocker never halts
   | ["mon.c07.endblock-movers"] => (st, "pass")   -- whatever reaches the burn address while the block ends is burned in that block
   | ["mon.c15.fee-denoms"] => (st, "pass")   -- the whole declared fee moves, in every denomination: what C15 demands
@@ -71,7 +72,7 @@ def stepLine (st : DState) (line : String) : DState × String :=
       | none => (st, "bad-op")
     else if tok = "ks.load" then (st, (ksStep toks).getD "bad-op")
     else if tok = "mon.c17" || tok = "mon.c17.f14" || tok.startsWith "mon.c20." ||
-        tok = "mon.c09.block" || tok = "mon.c09.parallelism" || tok = "mon.c09.genesis-spellings" || tok = "mon.c09.genesis-order" || tok = "mon.c10.block" || tok = "mon.c10.restart-after-handler" || tok = "mon.c10.stale-upgrade-info" || tok = "mon.c19.upgrade" || tok = "mon.c19.database-of-the-upgrade-path" then
+        tok = "mon.c09.block" || tok = "mon.c09.parallelism" || tok = "mon.c09.genesis-spellings" || tok = "mon.c09.genesis-order" || tok = "mon.c10.block" || tok = "mon.c10.restart-after-handler" || tok = "mon.c10.stale-upgrade-info" || tok = "mon.c10.restart-after-param-change" || tok = "mon.c19.upgrade" || tok = "mon.c19.database-of-the-upgrade-path" || tok = "mon.c19.genesis-without-upgrade-section" then
       -- runtime monitors: the model's verdict is what the property demands (Properties/C09, C10, C19, C20)
       (st, "pass")
     else if tok.startsWith "bank." || tok = "endblock" || tok = "mon.c07.inv" then
